@@ -339,7 +339,7 @@ func genC07(g *Gen) {
 	}
 	for k := 0; k < g.N; k++ {
 		g.Case()
-		x := &c07Gen{g: g, nchan: g.R.Range(1, c07NumChan), allowEmptyPayload: g.R.Chance(6)}
+		x := &c07Gen{g: g, nchan: g.R.Range(1, c07NumChan), allowEmptyPayload: g.R.Chance(35)}
 		if x.allowEmptyPayload {
 			g.Count("case:empty-payloads-allowed")
 		}
